@@ -7,7 +7,7 @@ from sa.analyses.buffers import BoundedRead, assignments, deps, linear
 from sa.db import AnalysisError, ClassInfo, FunctionInfo, dotted, mangle, norm_stmt, own_nodes
 
 CLAIM = {
-    "text": "Decides two structural necessities of chunking-independent parsing: (i) every generator that parses a pre-allocated, partially filled receive buffer (all buffered_incremental_deserialize implementations and the scanners / wrappers they delegate to) reads that buffer - slices, searches, hand-overs to callees - only up to a received-length variable (a value sent into the generator, a bounded search result, or a linear combination of those), so bytes that were never received cannot influence the result; (ii) the un-parsed remainder attached to a parse error survives every translation layer: each handler that converts an IncrementalDeserializeError / PacketConversionError / DeserializeError into the next layer's error passes on exc.remaining_data (or the frame's own remainder), and both consumers store it as the new buffer; plus the shape of LimitOverrunError's remainder computation (drop bytes one at a time until the rest is a *prefix* of the separator). Also decided (one error per bad frame, the stream stays usable): no input-dependent exception class but the parse-error family escapes any deserialisation entry point, protocol builder or consumer (escape analysis shared with C06), and no finished / dead parser generator stays parked in a consumer after a parse error (typestate shared with C10). The saved-remainder counter is consumed once, the JSON end-of-frame test covers negative counts, and in the asyncio protocol's copy-out paths the raw receive buffer is read only as `[:level]` and bytes are conserved (level_after + handed == level_before, decided over linear forms).",
+    "text": "Decides two structural necessities of chunking-independent parsing: (i) every generator that parses a pre-allocated, partially filled receive buffer (all buffered_incremental_deserialize implementations and the scanners / wrappers they delegate to) reads that buffer - slices, searches, hand-overs to callees - only up to a received-length variable (a value sent into the generator, a bounded search result, or a linear combination of those), so bytes that were never received cannot influence the result; (ii) the un-parsed remainder attached to a parse error survives every translation layer: each handler that converts an IncrementalDeserializeError / PacketConversionError / DeserializeError into the next layer's error passes on exc.remaining_data (or the frame's own remainder), and both consumers store it as the new buffer; plus the shape of LimitOverrunError's remainder computation (drop bytes one at a time until the rest is a *prefix* of the separator). Also decided (one error per bad frame, the stream stays usable): no input-dependent exception class but the parse-error family escapes any deserialisation entry point, protocol builder or consumer (escape analysis shared with C06), and no finished / dead parser generator stays parked in a consumer after a parse error (typestate shared with C10). The saved-remainder counter is consumed once, the JSON end-of-frame test covers negative counts, and in the asyncio protocol's copy-out paths the raw receive buffer is read only as `[:level]` and bytes are conserved (level_after + handed == level_before, decided over linear forms). Round 4: every frame taken from the stream reader in a serializer's incremental generator reaches the decoder (or a return / raise) before the next frame is read - an empty frame is still a frame; the escape-run test of the JSON framer (C01.esc) and the buffer-size / limit agreement of the buffered path (C07.fixed) are decided here too.",
     "note": "Trusted: Python slicing/search semantics. Not decided: frame-by-frame equality of the two receive paths, 'exactly one error per bad frame' (value level; DESIGN section 5 O1 records that an oversized frame yields several errors on the pinned tree).",
     "technique": "bounded-read data-flow (received-length closure over assignments, linear forms), exception-payload flow checks, shape facts - all over the ast program database",
 }
@@ -185,8 +185,103 @@ def check_one_error(eng, run):
     c10.check_parser(eng, run, rule="C02.err", dead_only=True)
 
 
+READER_TAKES = ("read_until", "read_exactly", "read", "readline")
+
+
+def check_frames_decoded(eng, run):
+    """every frame taken from the stream reader in a serializer's incremental generator reaches a use (decoder call, return,
+    raise) before the variable is bound to the next frame and before the generator returns: a frame that is read and then
+    skipped (an 'empty token' tolerance, a retry loop) costs no error on this path while the sibling path reports one - and an
+    empty frame is still a frame, so an emptiness test does not release it."""
+    from sa.analyses.base import RuleAnalysis
+    from sa.flow import Interp
+
+    def take(st):
+        """`v = yield from <reader>.read_*(...)` -> v"""
+        if isinstance(st, (ast.Assign, ast.AnnAssign)) and isinstance(st.value, ast.YieldFrom) and isinstance(st.value.value, ast.Call) \
+                and isinstance(st.value.value.func, ast.Attribute) and st.value.value.func.attr in READER_TAKES:
+            tg = st.targets if isinstance(st, ast.Assign) else [st.target]
+            if len(tg) == 1 and isinstance(tg[0], ast.Name):
+                return tg[0].id
+        return None
+
+    class Frames(RuleAnalysis):
+        tokens = ("Exception",)
+
+        def __init__(self, e):
+            super().__init__(e)
+            self.viol = []
+            self.takes = 0
+
+        def initial(self, f):
+            return [frozenset()]
+
+        def may_raise(self, node, fact):
+            return ["Exception"] if isinstance(node, (ast.Call, ast.YieldFrom, ast.Yield, ast.Raise)) else []
+
+        def raise_fact(self, node, fact, token):
+            return [frozenset()]  # an error exit carries its own payload rules (C02.keep); only the skipped frame is decided here
+
+        def _uses(self, node, v):
+            for x in ast.walk(node):
+                if isinstance(x, ast.Name) and x.id == v and isinstance(x.ctx, ast.Load):
+                    return True
+            return False
+
+        def transfer(self, node, fact):
+            held = fact
+            v = take(node)
+            if v is not None:
+                self.takes += 1
+                if v in held and not any(n is node for n in self.viol):
+                    self.viol.append(node)
+                return [held | {v}]
+            if isinstance(node, ast.Call):
+                nm = node.func.attr if isinstance(node.func, ast.Attribute) else getattr(node.func, "id", "")
+                if nm not in ("len", "bool", "isinstance"):
+                    rel = {h for h in held if any(self._uses(a, h) for a in list(node.args) + [k.value for k in node.keywords])}
+                    if isinstance(node.func, ast.Attribute) and isinstance(node.func.value, ast.Name) and node.func.value.id in held:
+                        rel.add(node.func.value.id)  # data.decode(...), data.removesuffix(...)
+                    held = held - rel
+            elif isinstance(node, (ast.Return, ast.Raise, ast.Yield)):
+                held = held - {h for h in held if self._uses(node, h)}
+            elif isinstance(node, (ast.Assign, ast.AnnAssign, ast.AugAssign)) and node.value is not None and not isinstance(node.value, (ast.YieldFrom, ast.Yield)):
+                # the frame flows into another variable / a container: followed no further, counts as used
+                held = held - {h for h in held if self._uses(node.value, h)}
+            return [held]
+
+    n = 0
+    for fn in eng.db.all_functions():
+        if isinstance(fn.node, ast.Lambda) or ".serializers." not in "." + fn.module.name + ".":
+            continue
+        if not any(take(st) for st in own_nodes(fn.node)):
+            continue
+        n += 1
+        an = Frames(eng)
+        out = Interp(an, fn).run()
+        dropped = [(f, tr) for f, tr in out.ret.items() if f]
+        for v in an.viol[:1]:
+            run.finding("C02.keep", fn, v, f"`{take(v)}` is bound to the next frame while the previous one has not been handed to the decoder: a frame (e.g. an empty one) is skipped without a parse error on this receive path only")
+        for f, tr in dropped[:1]:
+            if not an.viol:
+                run.finding("C02.keep", fn, _stmt_line(fn, tr[-1]) if tr else fn.node, f"the generator returns while the frame in `{sorted(f)[0]}` was never decoded or reported")
+        run.ob("C02.keep", f"{fn.short}:every-frame-reaches-the-decoder", not an.viol and not dropped, takes=an.takes)
+    run.floor("C02.keep serializer generators reading frames", n, 4)
+
+
+def _stmt_line(fn, line):
+    best = None
+    for x in own_nodes(fn.node):
+        if isinstance(x, ast.stmt) and getattr(x, "lineno", -1) == line:
+            best = x
+    return best if best is not None else fn.node
+
+
 def run(eng, run):
+    from sa.anchors import verify as _verify_anchor_names
+    _verify_anchor_names(eng, run)
     run.not_decided += NOT_DECIDED
+    check_frames_decoded(eng, run)
     check_bound(eng, run)
     check_keep(eng, run)
     check_lim(eng, run)
@@ -196,6 +291,9 @@ def run(eng, run):
     from sa.report import RuleAlias
     c01.check_scan(eng, RuleAlias(run, "C02.scan"))  # 'two independent separator scanners must agree' (shape facts of C01.scan)
     c01.check_json_close(eng, run, rule="C02.err")
+    c01.check_esc(eng, RuleAlias(run, "C02.scan"))  # a mis-read escape ends a string early: a valid frame becomes an error and the next ones are swallowed
+    from rules import c07
+    c07.check_fixed(eng, RuleAlias(run, "C02.lim"))  # the buffered path's limit is the buffer's length: both paths must enforce the configured one
     c10.check_conservation(eng, run, rule="C02.bound")
     c10.check_raw_buffer_reads(eng, run, rule="C02.bound")
 
